@@ -53,6 +53,12 @@ CHECKS = {
         "ref": "DESIGN.md §4 C08",
         "note": "Trusted: TLC, fv/rows.py. Equality up to 1e-9 relative (summation order changes the last bits of fitted means).",
     },
+    "C07": {
+        "technique": "TLA+ spec of API-call histories (Lifecycle.tla: designs own cells, operations have write sets) model checked with TLC over all histories up to a bound; every TLC-generated history and random longer ones are run against the real code with per-call cell fingerprints and fresh-process references; each recorded call judged by TLC (Lifecycle_Trace)",
+        "text": "TLC explores every history of build / evaluate-common / evaluate-group / set-config (3 formulas x 2 training frames x new frames with and without unseen levels x 3 modes + an undocumented value) up to length 3 (quick, 1.4k maximal histories) / 4 (thorough) and proves Frozen, HistoryIndependent and ConfigDiscipline from the write sets; each maximal history is replayed: after every call all cells reachable from every live design, every earlier result, the caller's frames and namespace and the config are re-fingerprinted (writes outside the write set are violations) and the outcome is compared with the same single operation in a process forked from a pristine template. Random histories of up to 25 calls with up to 4 live designs add prints and model_description calls.",
+        "ref": "DESIGN.md §3.8, §4 C07",
+        "note": "Trusted: fv/cells.py (object-graph walk), fv/fresh.py (fork server), TLC. Outcomes are compared as digests of matrices rounded to 1e-10.",
+    },
 }
 
 NOT_YET = "check not built yet (work in progress; see DESIGN.md §9 build order)"
